@@ -297,6 +297,35 @@ fn synthesise(rng: &mut Rng, thorough: bool) -> Vec<(String, Vec<u8>)> {
             }
         }
     }
+    // headers with index entries BEHIND their region (added after the region was sealed): a digest
+    // of the region alone is a stale digest
+    for (pi, payload) in payloads.iter().enumerate() {
+        let pd = hex::encode(sha2::Sha256::digest(payload));
+        let mut items: Vec<(u32, Val)> = vec![(tag::NAME, Val::str("dribble")), (tag::VERSION, Val::str("1")), (tag::RELEASE, Val::str("1")), (tag::ARCH, Val::str("noarch")), (tag::PAYLOADDIGEST, Val::StrArray(vec![pd.as_bytes().to_vec()])), (tag::PAYLOADDIGESTALGO, Val::Int32(vec![8]))];
+        items.sort_by_key(|(t, _)| *t);
+        let (re, rs) = layout_with_region(tag::HDR_REGION, &items);
+        let sealed = enc_header(&re, &rs);
+        for (k, extra) in [(tag::PREIN, Val::str("echo appended after sealing")), (tag::EPOCH, Val::Int32(vec![9])), (9999, Val::Bin(vec![1, 2, 3]))].into_iter().enumerate() {
+            let mut with = items.clone();
+            with.push(extra);
+            let (fe, fs) = layout_with_region_and_dribbles(tag::HDR_REGION, &with, 1);
+            let full = enc_header(&fe, &fs);
+            for (label, img) in [("digests-of-the-whole-header", &full), ("stale-digests-of-the-region-only", &sealed)] {
+                for which in 0..3 {
+                    let mut sitems: Vec<(u32, Val)> = Vec::new();
+                    if which != 1 {
+                        sitems.push((tag::SIG_SHA256, Val::str(&hex::encode(sha2::Sha256::digest(img)))));
+                    }
+                    if which != 0 {
+                        sitems.push((tag::SIG_SHA1, Val::str(&hex::encode(sha1::Sha1::digest(img)))));
+                    }
+                    sitems.sort_by_key(|(t, _)| *t);
+                    let (se, ss) = layout_with_region(tag::SIG_REGION, &sitems);
+                    out.push((format!("synth:dribble{k}:{label}:payload{pi}:tags{which}"), enc_package(&enc_lead("dribble"), &enc_header(&se, &ss), &full, payload)));
+                }
+            }
+        }
+    }
     out
 }
 
